@@ -153,7 +153,16 @@ def _mkmap(ctx, extra=0):
     return m, (ka, ki, t)
 
 
+def _swappable():
+    return type(getattr(helpers.DeviceInstanceTypeMapper(), "_mapping", None)) is dict
+
+
 def h_map(ctx, extra=0):
+    if not _swappable():
+        # the mapper no longer keeps one plain dict in `_mapping`: symbolic keys cannot be given to it;
+        # the history cases below (concrete keys, mapper untouched) still exercise it
+        ctx.note("mapper-internals-changed:symbolic-key-case-skipped")
+        return "skipped: mapper internals restructured"
     x = ctx.fresh("x", 0, 0xFFFFFF)
     ctx.assume(E.eq(x & 0x818000, 0x008000))      # device/instance scheme
     m, entry = _mkmap(ctx, extra)
@@ -213,8 +222,98 @@ def h_map(ctx, extra=0):
     return "hit:" + name
 
 
+SMALL_ADDR = (37, 63)
+SMALL_INST = (0, 31)
+
+
+def h_map_history(ctx, steps):
+    """The library's mapper exactly as it is (nothing replaced), driven through its public methods with
+    concrete keys from a small set while the frame stays symbolic (its address / instance fields limited to
+    the small sets plus one value that is never in the map): look up before the entry exists, add it, look
+    up again, add a second entry (possibly for the same key, possibly for the same device), look up again;
+    retry_decode of the first, ambiguous result after every change.  steps = the operations after the first
+    lookup, from 'add', 'add2', 'clear'."""
+    x = ctx.fresh("x", 0, 0xFFFFFF)
+    ctx.assume(E.eq(x & 0x818000, 0x008000))
+    r = ref.decode_source(x)
+    ctx.assume(E.or_(*[E.eq(r.short, v) for v in SMALL_ADDR + (5,)]))
+    ctx.assume(E.or_(*[E.eq(r.inst_number, v) for v in SMALL_INST + (9,)]))
+    m = helpers.DeviceInstanceTypeMapper()
+    entries = []
+
+    def lookup(tag):
+        st, ev = call(C.from_frame, F.ForwardFrame(24, x), dev_inst_map=m)
+        if st == "exc":
+            ctx.fail("decode raised %r" % (ev,), key=tag + "/raised:" + type(ev).__name__)
+            return None
+        want = None
+        for ka, ki, t in reversed(entries):
+            if bool(E.and_(E.eq(ka, r.short), E.eq(ki, r.inst_number))):
+                want = t
+                break
+        if want is None:
+            ctx.prove(type(ev).__name__ == "AmbiguousInstanceType", "no entry for the frame's device/instance, "
+                      "decoded as %s" % type(ev).__name__, key=tag + "/miss-class")
+        else:
+            _check_event(ctx, ev, r, want, tag + "/hit")
+        ctx.prove(E.eq(ev.frame.as_integer, x), "decoded event does not re-encode to the frame", key=tag + "/bits")
+        return ev, want
+
+    def retry(amb, tag, now):
+        st, again = call(amb.retry_decode, m)
+        if st == "exc":
+            ctx.fail("retry_decode raised %r" % (again,), key=tag + "/retry-raised")
+            return
+        ev, want = now
+        if want is None:
+            ctx.prove(again is None, "retry_decode without a matching entry returned %r" % (again,),
+                      key=tag + "/retry-miss")
+        elif again is None or type(again) is not type(ev):
+            ctx.fail("retry_decode gave %r, decoding with the map gives %s" % (again, type(ev).__name__),
+                     key=tag + "/retry-class")
+        else:
+            ctx.prove(E.eq(again.frame.as_integer, x), "retry_decode re-encodes differently", key=tag + "/retry-bits")
+            ctx.prove(ctx.text_equal(str(again), str(ev)), "retry_decode renders differently",
+                      key=tag + "/retry-text")
+
+    first = lookup("history/empty")
+    if first is None:
+        return "exc"
+    amb = first[0]
+    if type(amb).__name__ != "AmbiguousInstanceType":
+        return "not-ambiguous"
+    labels = []
+    for n, step in enumerate(steps):
+        tag = "history/%d-%s" % (n, step)
+        if step == "clear":
+            m.clear()
+            entries[:] = []
+        else:
+            ka = SMALL_ADDR[ctx.fresh_choice("ka%d" % n, len(SMALL_ADDR))]
+            ki = SMALL_INST[ctx.fresh_choice("ki%d" % n, len(SMALL_INST))]
+            t = ctx.fresh("t%d" % n, 0, 31)
+            # which event class the type selects is h_map's / h_nomap's subject: two types suffice here
+            ctx.assume(E.or_(E.eq(t, 4), E.eq(t, 20)))
+            form = ctx.fresh_choice("form%d" % n, 2) if n == 0 else 0
+            if form == 0:
+                m.add_type(short_address=ka, instance_number=ki, instance_type=t)
+            else:
+                m.add_type(short_address=A.DeviceShort(ka), instance_number=A.InstanceNumber(ki), instance_type=t)
+            entries.append((ka, ki, t))
+        now = lookup(tag)
+        if now is None:
+            return "exc"
+        retry(amb, tag, now)
+        labels.append("miss" if now[1] is None else "hit")
+    return ",".join(labels)
+
+
 def cases(tier):
-    cs = [Case("nomap", h_nomap, {}), Case("map", h_map, {})]
+    cs = [Case("nomap", h_nomap, {}), Case("map", h_map, {}),
+          Case("map-history-add", h_map_history, {"steps": ("add",)}),
+          Case("map-history-add-clear-add", h_map_history, {"steps": ("add", "clear", "add")})]
+    if tier == "thorough":
+        cs.append(Case("map-history-add-add", h_map_history, {"steps": ("add", "add2")}))
     if tier == "thorough":
         cs.append(Case("map-2", h_map, {"extra": 1}))
     return cs
